@@ -36,6 +36,12 @@ def _mentions_static(s, path):
 
 
 def run(ctx):
+    _run(ctx)
+    if not getattr(ctx, "no_imports", False):
+        _callers(ctx)
+
+
+def _run(ctx):
     chk = ctx.check
     m = ctx.crate("metrics")
     crate_stats(chk, m)
@@ -333,6 +339,61 @@ def _uses_static(fn, path):
         if path in repr(c.t.get("args")):
             return True
     return path in repr(fn.promoted_bodies())
+
+
+def _callers(ctx):
+    """Every caller of set_global_recorder in the workspace's exporters / utilities that branches on its result: where the
+    installation FAILED, what the caller returns is an error (an `Err(..)` built there, or the residual of `?`) — never a
+    success assembled from some earlier state (an `install` that answers a lost race with Ok(previous handle) reports
+    success for a recorder that was not installed, and drops it)."""
+    from facts import PredFlow
+
+    chk = ctx.check
+    if ctx.config != "default":
+        return
+    chk.rule("C02.g", "FWD callers: in every workspace function that calls set_global_recorder and branches on the result, each value returned where the call is known to have failed is an Err aggregate or the residual of `?`", floor=1)
+    n = 0
+    for cn in ("metrics_exporter_prometheus", "metrics_exporter_dogstatsd", "metrics_exporter_tcp", "metrics_util"):
+        try:
+            cr = ctx.crate(cn)
+        except Exception:
+            continue
+        for f in cr.fns:
+            if "::tests::" in f.path or "::test::" in f.path or not f.j.get("mir"):
+                continue
+            cs = [c for c in f.body.calls() if c.is_("metrics::set_global_recorder", "recorder::set_global_recorder", "set_global_recorder")]
+            if not cs:
+                continue
+
+            def csw(subj, variant):
+                if sym_is_call(subj, "metrics::set_global_recorder", "recorder::set_global_recorder", "set_global_recorder"):
+                    return {"Err": "P", "Ok": "N"}.get(variant)
+                return None
+
+            pf = PredFlow(f, csw)
+            b = f.body
+            sy = Sym(f)
+            bad = None
+            seen_p = False
+            for i, k, st in b.stmts():
+                if pf.at(i) != "P":
+                    continue
+                seen_p = True
+                if st["k"] == "assign" and st["p"]["l"] == 0 and not st["p"].get("pr"):
+                    v = strip_sym(sy.rvalue(st["rv"], 0, frozenset()))
+                    if not (v[0] == "agg" and v[2] == "Err"):
+                        bad = bad or (i, sym_str(v)[:60])
+            for i in range(b.n):
+                t = b.term(i)
+                if pf.at(i) == "P" and t["k"] == "call" and (t.get("dest") or {}).get("l") == 0 and not (t.get("dest") or {}).get("pr"):
+                    seen_p = True
+                    nm = strip_generics(t.get("resolved") or t.get("callee") or "").split("::")[-1]
+                    if nm not in ("from_residual", "from", "into"):
+                        bad = bad or (i, nm)
+            n += 1
+            chk.ob("C02.g", f"{f.path} [a failed installation is reported as an error]", bad is None, ("every value returned on the failed edge is an error" if seen_p else "the result is passed on unbranched") if bad is None else f"where set_global_recorder failed the function returns {bad[1]} — not an error built there: a caller that lost the installation is told it succeeded (and the rejected recorder is dropped)", f.loc(), nontrivial=seen_p)
+    if not n:
+        chk.unrecognised("C02.g", "<anchor> callers of set_global_recorder", "none found in the exporter / utility crates")
 
 
 def run_config(ctx):
